@@ -195,17 +195,22 @@ def check_messages(st):
     for sbits, hbits in itertools.product((0, 1, 767, 768, 1024), (8, 1023, 1024, 2048)):
         for e in (1, 3, 65537):
             for pf, cm, am in ((0, 0, 0), (2, 0x48, 0x0c), (0xffffffff, 0xffffffff, 0xffffffff)):
-                m = PKM(b'\x05' * 8, (sbits, e, wire.modulus_with_bits(sbits)), (hbits, e, wire.modulus_with_bits(hbits)), pf, cm, am)
-                payload = m.payload
-                m2 = PKM.parse(payload)
-                st.execution(None, outcome=('pkm',), root=('pkm', sbits, hbits, e, pf), nontrivial=('pkm', sbits, hbits, e, pf))
-                if (m2.payload != payload or m2.server_key_public_modulus != m.server_key_public_modulus or
-                        m2.host_key_public_modulus != m.host_key_public_modulus or m2.supported_ciphers_mask != cm or
-                        m2.supported_authentications_mask != am or m2.protocol_flags != pf or m2.host_key_bits != hbits):
-                    st.violation('ssh1-pubkey-message-roundtrip', {'sbits': sbits, 'hbits': hbits, 'e': e})
-                ref = wire.ssh1_pubkey_payload(cm, am, hbits, sbits, pf, b'\x05' * 8)
-                if e == 65537 and payload != ref:
-                    st.violation('ssh1-pubkey-message:independent-encoder-disagrees', {'sbits': sbits, 'hbits': hbits})
+                # the announced sizes are fields of their own: they need not equal the bit length of the modulus next to them
+                for ds, dh in ((0, 0), (1, 0), (0, 1), (-1, -1), (4096, 7)):
+                    asb, ahb = max(0, sbits + ds), max(0, hbits + dh)
+                    m = PKM(b'\x05' * 8, (asb, e, wire.modulus_with_bits(sbits)), (ahb, e, wire.modulus_with_bits(hbits)), pf, cm, am)
+                    payload = m.payload
+                    m2 = PKM.parse(payload)
+                    st.execution(None, outcome=('pkm',), root=('pkm', sbits, hbits, e, pf, ds, dh), nontrivial=('pkm', sbits, hbits, e, pf, ds, dh))
+                    if (m2.payload != payload or m2.server_key_public_modulus != m.server_key_public_modulus or
+                            m2.host_key_public_modulus != m.host_key_public_modulus or m2.supported_ciphers_mask != cm or
+                            m2.supported_authentications_mask != am or m2.protocol_flags != pf or m2.host_key_bits != ahb or
+                            m2.server_key_bits != asb or m2.host_key_public_exponent != e or m2.server_key_public_exponent != e or
+                            m2.cookie != b'\x05' * 8):
+                        st.violation('ssh1-pubkey-message-roundtrip', {'sbits': sbits, 'hbits': hbits, 'announced': [asb, ahb], 'e': e})
+                    ref = wire.ssh1_pubkey_payload(cm, am, hbits, sbits, pf, b'\x05' * 8)
+                    if e == 65537 and (ds, dh) == (0, 0) and payload != ref:
+                        st.violation('ssh1-pubkey-message:independent-encoder-disagrees', {'sbits': sbits, 'hbits': hbits})
 
 
 class RawServer(P.Server):
